@@ -31,6 +31,9 @@ pub const DERIVES: &[&str] = &[
     "::codec::Decode",
     "a::B",
     "Zz",
+    // same last identifier as another entry: a sort key that is not unique shows here
+    "::core::fmt::Debug",
+    "::scale::Encode",
 ];
 pub const ATTRS: &[&str] = &[
     "#[codec(crate = ::codec)]",
@@ -39,6 +42,9 @@ pub const ATTRS: &[&str] = &[
     "#[cfg_attr(feature = \"x\", derive(Foo))]",
     "#[decode_as_type(crate_path = \":: subxt :: ext :: scale_decode\")]",
     "#[must_use]",
+    // same attribute path as another entry, different arguments
+    "#[serde(deny_unknown_fields)]",
+    "#[codec(dumb_trait_bound)]",
 ];
 pub const UNKNOWN_PATHS: &[&str] = &["unknown::Path1", "x::Y", "absent::from::registry::Z", "Lonely"];
 
@@ -87,11 +93,9 @@ pub fn gen_logical(rng: &mut Rng, reg: &PortableRegistry) -> Logical {
     let kn = rng.subset(&known, 6.min(known.len()));
     pool.extend(kn);
     let nunk = rng.usize_below(3);
-    pool.extend(
-        rng.subset(UNKNOWN_PATHS, nunk)
-            .into_iter()
-            .map(|s| s.to_string()),
-    );
+    let mut unknown_pool: Vec<String> = UNKNOWN_PATHS.iter().map(|s| s.to_string()).collect();
+    unknown_pool.extend(crate::c16::near_misses(reg, rng));
+    pool.extend(rng.subset(&unknown_pool, nunk));
     let ngd = rng.usize_below(6);
     let global_derives: Vec<String> = rng
         .subset(DERIVES, ngd)
@@ -150,6 +154,18 @@ pub fn gen_logical(rng: &mut Rng, reg: &PortableRegistry) -> Logical {
             _ => (src, format!("::subst::T{i}")),
         };
         subs.push((src, tgt));
+    }
+    // a rule whose source is a proper prefix (a module) of a known path: only exact keys may match
+    if !comp.is_empty() && rng.chance(1, 4) {
+        let p = rng.pick(&comp).clone();
+        let segs: Vec<&str> = p.split("::").collect();
+        if segs.len() >= 2 {
+            let cut = 1 + rng.usize_below(segs.len() - 1);
+            let src = segs[..cut].join("::");
+            if keys.insert(src.clone()) {
+                subs.push((src, format!("::subst::Prefix{cut}")));
+            }
+        }
     }
     let switches = Switches {
         root: rng.pick(&["root", "types", "my_types"]).to_string(),
@@ -939,18 +955,31 @@ pub fn minimise_and_package(plan: &RunPlan, class: String, detail: String, run: 
     // 4. attribute the failure: equalise entropy, or equalise histories
     let mut responsible = "single execution";
     if execs.len() == 2 {
-        let mut same_entropy = execs.clone();
-        same_entropy[1].entropy = same_entropy[0].entropy;
-        let mut same_ops = execs.clone();
-        same_ops[1].ops = same_ops[0].ops.clone();
-        if same(&class_of(&reg, &sw, &same_ops)) {
-            execs = same_ops;
-            responsible = "hash schedule (identical histories, different hash keys)";
-        } else if same(&class_of(&reg, &sw, &same_entropy)) {
-            execs = same_entropy;
-            responsible = "registration history (identical hash keys, different call order)";
-        } else {
-            responsible = "hash schedule and registration history together";
+        // identical histories, different hash keys: a two-way choice is hit by a single
+        // alternative key only half of the time, so several are tried
+        let mut found = false;
+        for t in 0..12u64 {
+            let mut same_ops = execs.clone();
+            same_ops[1].ops = same_ops[0].ops.clone();
+            if t > 0 {
+                same_ops[1].entropy = mix(execs[1].entropy, tag("alt-entropy"), t);
+            }
+            if same(&class_of(&reg, &sw, &same_ops)) {
+                execs = same_ops;
+                responsible = "hash schedule (identical histories, different hash keys)";
+                found = true;
+                break;
+            }
+        }
+        if !found {
+            let mut same_entropy = execs.clone();
+            same_entropy[1].entropy = same_entropy[0].entropy;
+            if same(&class_of(&reg, &sw, &same_entropy)) {
+                execs = same_entropy;
+                responsible = "registration history (identical hash keys at thread start, different call order; note that a different history also shifts std's per-map key counter)";
+            } else {
+                responsible = "hash schedule and registration history together";
+            }
         }
     }
     let final_detail = class_of(&reg, &sw, &execs)
